@@ -8,6 +8,8 @@ import (
 	"sort"
 	"strings"
 	"time"
+
+	"golang.org/x/net/html"
 )
 
 type stringsBuilder = strings.Builder
@@ -194,3 +196,9 @@ func (w *zzWriter) Write(p []byte) (int, error) {
 	return room, errors.New("zz: writer full")
 }
 
+
+// small DOM builders
+func zzElem(tag string) *html.Node          { return &html.Node{Type: html.ElementNode, Data: tag} }
+func zzText(s string) *html.Node            { return &html.Node{Type: html.TextNode, Data: s} }
+func zzAttr(k, v string) html.Attribute     { return html.Attribute{Key: k, Val: v} }
+func zzNodes(n ...*html.Node) []*html.Node  { return n }
